@@ -1094,6 +1094,20 @@ class Interp:
                 return z3.ToReal(v)
             return Fraction(int(v))
         if ck == "FloatingToIntegral":
+            if getattr(self, "check_float_cast", False):
+                # [conv.fpint]: undefined unless the truncated value fits the destination (32-bit int here)
+                self.n_safety_checked += 1
+                lo, hi = -(2 ** 31) - 1, 2 ** 31
+                if is_sym(v):
+                    r, m = self.check(z3.Not(z3.And(v > lo, v < hi)))
+                    if r == "sat":
+                        self.safety_fail("float-to-int conversion out of range", n, "the converted value can lie outside the range of int", m)
+                    elif r != "unsat":
+                        self.safety_unknown.append(("float-to-int", self.where(n), "range of the converted value undecided"))
+                    self._add_pc(z3.And(v > lo, v < hi))
+                elif not (lo < v < hi):
+                    self.safety_fail("float-to-int conversion out of range", n, "value %s" % v)
+                    return self.havoc("int", "float-to-int out of range")
             if is_sym(v):
                 return z3.If(v >= 0, z3.ToInt(v), -z3.ToInt(-v))
             return int(v)  # Fraction.__trunc__: toward zero
@@ -1252,7 +1266,7 @@ class Interp:
             l = self.cast("IntegralToFloating", l)
         v = self.binop(op, l, r, n)
         if lt == "int" and ct == "double":
-            v = self.cast("FloatingToIntegral", v)
+            v = self.cast("FloatingToIntegral", v, n)
         ref.set(v)
         return ref
 
